@@ -730,14 +730,20 @@ def real_case(p):
     return out
 
 
-def gen_real(rng, name):
+def gen_real(rng, name, large=False):
     nx, ny, sx, sy = gen_layout(rng, small=True)
+    if large:
+        # several hundred pixels in one call (a detector of ordinary size): a value must not depend on how many
+        # other pixels are computed with it
+        nx, ny = rng.choice([(19, 23), (1, 300), (310, 1), (17, 17), (24, 12)])
+        sx, sy = rng.choice([0.125, 0.25]), rng.choice([0.125, 0.25])
     n = nx * ny
     return dict(theory=name, shape=[nx, ny], spacing=[sx * 0.4, sy * 0.4],
                 center=[dy(rng, -1, 3, 4), dy(rng, -1, 3, 4), dy(rng, 4, 9, 4)], n=rng.choice([1.45, 1.59]),
                 r=rng.choice([0.3, 0.5, 0.7]), pol=rng.choice([[1, 0], [1, 0], [0, 1]]) if name != "tmatrix" else [1, 0],
                 shift=rng.choice([None, [dy(rng, -3, 3), dy(rng, -3, 3)]]),
-                pixels=rng.choice([1, n, rng.randint(1, n)]), seed=rng.choice([0, rng.randint(0, 9999)]),
+                pixels=(rng.choice([1, n, rng.randint(1, n)]) if not large else rng.randint(2, 9)),
+                seed=rng.choice([0, rng.randint(0, 9999)]),
                 crop=[rng.randint(0, nx), rng.randint(0, ny)], field=rng.random() < 0.3)
 
 
@@ -759,10 +765,11 @@ def report_real(ctx, p, res):
 def stage_real(ctx):
     rng = ctx.subrng("real")
     names = ["mie", "mie-sup", "multisphere", "tmatrix", "mielens", "lens"]
+    nlarge = ctx.n(6, 36)
     for k in range(ctx.n(48, 600)):
         name = names[k % len(names)]
-        p = gen_real(rng, name)
-        ctx.count("real:" + name)
+        p = gen_real(rng, name, large=(k < nlarge))
+        ctx.count("real:" + name + (":large" if k < nlarge else ""))
         ctx.nontriv(("real", name, tuple(p["shape"]), p["pixels"]))
         res = real_case(p)
         report_real(ctx, p, res)
